@@ -1,6 +1,7 @@
 package main
 
 import (
+	"unicode"
 	"fmt"
 	"sort"
 )
@@ -63,7 +64,7 @@ func algoReport(c *Ctx, prop string, cs algoCase, v algoVerdict, compareModel bo
 			known = "K2"
 		}
 		if prop == "C02" && cs.Fn == 7 && len(cs.Pat) == 0 && len(bad) == 1 && bad[0] == 4 {
-			known = "K3" // EqualMatch answers "no match" to the empty pattern whatever the text
+			known = "K4" // EqualMatch answers "no match" to the empty pattern whatever the text
 		}
 		if known == "" {
 			cs, v = shrinkAlgo(c, prop, cs, v, mine)
@@ -144,12 +145,24 @@ func randCase(r *RNG, maxLen int, fns []int) algoCase {
 		m = r.Intn(12)
 	}
 	cs.Pat = genPat(r, text, m)
+	if cs.Fn >= 5 && len(text) > 0 && r.Chance(1, 4) { // white space (multi-byte too) around the text: what the anchored matchers trim
+		pre, post := []int{}, []int{}
+		for k := r.Intn(3); k > 0; k-- {
+			pre = append(pre, Pick(r, alphaSpace))
+		}
+		for k := r.Intn(3); k > 0; k-- {
+			post = append(post, Pick(r, alphaSpace))
+		}
+		text = append(append(pre, text...), post...)
+		cs.Text = text
+	}
+	isSp := func(x int) bool { return unicode.IsSpace(rune(x)) }
 	if cs.Fn >= 5 && len(text) > 0 && r.Chance(2, 3) { // anchored kinds: take a real prefix/suffix/whole, maybe trimmed
 		lo, hi := 0, len(text)
-		for lo < hi && r.Chance(1, 2) && (text[lo] == ' ' || text[lo] == '\t') {
+		for lo < hi && r.Chance(2, 3) && isSp(text[lo]) {
 			lo++
 		}
-		for hi > lo && r.Chance(1, 2) && (text[hi-1] == ' ' || text[hi-1] == '\t') {
+		for hi > lo && r.Chance(2, 3) && isSp(text[hi-1]) {
 			hi--
 		}
 		switch cs.Fn {
